@@ -114,6 +114,20 @@ CLAIMS['C32'] = dict(
          'against the 250-line body); the experimental expire_triggers suicide branch of spawn_on_output '
          'expires tasks by design and is listed by the census, not proved.')
 
+CLAIMS['C02'] = dict(
+    category='proof',
+    text='TaskActionTimer.next is proved: it hands out delays[num] and increments num exactly while '
+         'num < len(delays), and grants nothing (None, num unchanged) afterwards, so a timer with N delays '
+         'grants at most N retries between resets. _process_message_failed and _process_message_submit_failed '
+         'are proved against their bodies: the result is "no retry left" (forced, no timer, or timer exhausted), '
+         'a granted retry consumes exactly one delay and leaves the task waiting with the failed/submit-failed '
+         'output untouched, and only the definitive branch sets failed/submit-failed. A census shows the retry '
+         'counter is assigned only by the timer itself and where a job has started or been vacated.',
+    note=_PROOF_NOTE + 'NOT covered: the (N+1)*(M+1) bound is the arithmetic consequence of the per-timer '
+         'facts over a history, not itself an obligation; process_message (that spawn_children(failed) is reached '
+         'only after a True return), spawn_task/_get_task_history (not re-run when finished and complete) are '
+         'not under contract. _retry_task and the event-handler/job-bookkeeping helpers are assumed.')
+
 NOT_APPLICABLE = {
     'C01': 'equality between the set of instances submitted over a whole run and the spawn-on-demand closure, for '
            'every schedule: a whole-history property; no postcondition of one call states it. Its per-call '
